@@ -75,17 +75,18 @@ def reduce_failure(w, text, indent, kind):
     return "".join(core)
 
 
-DANGLING = re.compile(r"[^\s,(\[{]\n[ \t]*[)\]}]")
+def _squash(t):
+    return re.sub(r",(?=[)\]}])", "", re.sub(r"\s+", "", t))
 
 
-def dangling_close(det):
-    """the first pass printed a list on one line except for its closing bracket (`[ 1000, 5 + 2\\n] then [`): it measured the
-    line up to a forced line break further right, which the second pass sees as already broken"""
+def joined_on_second_pass(det):
+    """the first pass broke a list / call / parameter list over several lines (`[ 1000, 5 + 2\\n] then [`, `f(a,\\nb)`) and the
+    second pass joins it again; nothing else differs.  The width test looks at the text up to the next line break of the
+    *input*; the first pass changes where that is."""
     if not isinstance(det, dict) or "first" not in det or "second" not in det:
         return False
-    first = re.sub(r"\|\|\|.*?\|\|\|", "|||", det["first"], flags=re.S)
-    second = re.sub(r"\|\|\|.*?\|\|\|", "|||", det["second"], flags=re.S)
-    return bool(DANGLING.search(first)) and not DANGLING.search(second)
+    first, second = det["first"], det["second"]
+    return _squash(first) == _squash(second) and first.count("\n") > second.count("\n")
 
 
 def features(core, det=None):
@@ -101,8 +102,8 @@ def features(core, det=None):
         f.append("line-comment")
     if not f and nested_statement(core):
         f.append("local-or-assert-statement-inside-brackets")
-    if not f and dangling_close(det):
-        f.append("dangling-closing-bracket-on-first-pass")
+    if not f and joined_on_second_pass(det):
+        f.append("first-pass-line-break-joined-on-second-pass")
     if "|||" in core and not f:
         f.append("crlf-text-block" if "\r\n" in core else "text-block")
     if not f:
